@@ -247,6 +247,11 @@ pub fn tree_calls(s: &Subject, others: &[Subject]) -> Vec<(String, String, &'sta
         r!("get_path_from_root", a.clone(), |c: &mut Tree| c.get_path_from_root(&x));
         rm!("prune", a.clone(), |c: &mut Tree| c.prune(&x));
         rm!("add_child", a.clone(), |c: &mut Tree| c.add_child(Node::new_named("Z"), x, Some(1.0)));
+        // the node argument is a copy of a node of the tree itself (it arrives with that node's links)
+        for &y in ids.iter().take(3) {
+            rm!("add_child(copy)", format!("{y},{x}"), |c: &mut Tree| { let n = c.get(&y).map(|n| n.clone()).unwrap_or_else(|_| Node::new()); c.add_child(n, x, None) });
+        }
+        rm!("add(copy)", a.clone(), |c: &mut Tree| -> Result<usize, ()> { let n = c.get(&x).map(|n| n.clone()).unwrap_or_else(|_| Node::new()); Ok(c.add(n)) });
         r!("prune;to_newick", a.clone(), |c: &mut Tree| { let _ = c.prune(&x); c.to_newick() });
         r!("prune;distance_matrix", a.clone(), |c: &mut Tree| { let _ = c.prune(&x); c.distance_matrix() });
         for &y in ids.iter() {
